@@ -79,4 +79,96 @@ MUTATIONS = [
     dict(id="c14-softmax-axis-dropped", file=RPAR, old="    return TorchSoftmaxParameter(in_shape, dim=p.axis)\n", new="    return TorchSoftmaxParameter(in_shape)\n", expect={"C14": ["R1c:cirkit.backend.torch.rules.parameters.compile_softmax_parameter"], "C01": ["R1c:cirkit.backend.torch.rules.parameters.compile_softmax_parameter"]}),
     dict(id="c01-categorical-num-categories-dropped", file=RLAY, old="        num_categories=sl.num_categories,\n", new="", expect={"C01": ["R1c:cirkit.backend.torch.rules.layers.compile_categorical_layer"]}),
     dict(id="c06-concatenate-reversed", file=FUN, old="    for sc in scs:\n", new="    for sc in reversed(scs):\n", expect={"C06": ["R7e:cirkit.symbolic.functional.concatenate:operand-order"]}),
+    # ---------------------------------------------------------------- behaviour-preserving variants: every check must stay quiet
+    dict(id="q-scope-iter-yield-from", quiet=True, file="cirkit/utils/scope.py", old="        return iter(sorted(self._set))\n", new="        yield from sorted(self._set)\n", expect={}),
+    dict(id="q-hmm-hoisted-id", quiet=True, file="cirkit/templates/pgms.py", old="        input_sl = input_factories[ordering[i]](Scope([ordering[i]]), num_latent_states)\n", new="        var = ordering[i]\n        input_sl = input_factories[var](Scope([var]), num_latent_states)\n", expect={}),
+    dict(id="q-hmm-hoisted-factory", quiet=True, file="cirkit/templates/pgms.py", old="        input_sl = input_factories[ordering[i]](Scope([ordering[i]]), num_latent_states)\n", new="        factory = input_factories[ordering[i]]\n        input_sl = factory(Scope([ordering[i]]), num_latent_states)\n", expect={}),
+    dict(id="q-foldwise-unsqueeze", quiet=True, file="cirkit/backend/torch/initializers.py", old="            initializer_(t[i : i + 1])\n", new="            initializer_(t[i].unsqueeze(0))\n", expect={}),
+    dict(id="q-optimize-output-set", quiet=True, file="cirkit/backend/torch/graph/optimize.py", old="            if any(m in outputs for m in match.entries[1:]):\n                continue\n", new="            if not set(outputs).isdisjoint(match.entries[1:]):\n                continue\n", expect={}),
+    dict(id="q-logpartition-keepdim", quiet=True, file="cirkit/backend/torch/layers/input.py", old="        return torch.logsumexp(logits, dim=2).unsqueeze(dim=1)\n", new="        return torch.logsumexp(logits, dim=2, keepdim=True).transpose(1, 2)\n", expect={}),
+    dict(id="q-logpartition-none-index", quiet=True, file="cirkit/backend/torch/layers/input.py", old="        return torch.logsumexp(logits, dim=2).unsqueeze(dim=1)\n", new="        return torch.logsumexp(logits, dim=2)[:, None, :]\n", expect={}),
+    dict(id="q-compat-keys-first", quiet=True, file="cirkit/symbolic/circuit.py", old="    for scope in sfs1.keys() & sfs2.keys():\n        fs1, fs2 = sfs1[scope], sfs2[scope]\n", new="    common = set(sfs1) & set(sfs2)\n    for scope in common:\n        fs1 = sfs1[scope]\n        fs2 = sfs2[scope]\n", expect={}),
+    dict(id="q-factorization-frozenset-key", quiet=True, file="cirkit/symbolic/circuit.py", old="    return tuple(sorted(scope))\n", new="    return tuple(sorted(list(scope)))\n", expect={}),
+    dict(id="q-multiply-named-key", quiet=True, file=FUN, old="key=lambda sl: tuple(sorted(sc1.layer_scope(sl)))", new="key=lambda sl: sorted(sc1.layer_scope(sl))", expect={}),
+    dict(id="q-rg-compat-alias", quiet=True, file="cirkit/templates/region_graph/graph.py", old="            partition2_inputs = other.node_inputs(partition2)\n", new="            rg2 = other\n            partition2_inputs = rg2.node_inputs(partition2)\n", expect={}),
+    dict(id="q-gaussian-conj-inline", quiet=True, file=OPS, old="    log_partition = sl.log_partition.ref() if sl.log_partition is not None else None\n    sl = GaussianLayer(", new="    log_partition = None\n    if sl.log_partition is not None:\n        log_partition = sl.log_partition.ref()\n    sl = GaussianLayer(", expect={}),
+    dict(id="q-index-param-advanced-index", quiet=True, file=TNODES, old="        return torch.index_select(x, self.dim + 1, self._indices)\n", new="        return x.index_select(self.dim + 1, self._indices)\n", expect={}),
+    dict(id="q-gather-settings-renamed", quiet=True, file="cirkit/backend/torch/graph/folding.py", old="        ss = [type(module), *module.fold_settings]\n", new="        ss = [type(module)]\n        ss.extend(module.fold_settings)\n", expect={}),
+    dict(id="q-diff-config-dict", quiet=True, file=TNODES, old='        config = super().config\n        config["order"] = self.order\n        return config\n', new='        return {**super().config, "order": self.order}\n', expect={}),
+    dict(id="q-build-circuit-elif", quiet=True, file="cirkit/templates/region_graph/graph.py", old="            assert isinstance(\n                node, RegionNode\n            ), \"Region graph nodes must be either region or partition nodes\"\n", new="            if not isinstance(node, RegionNode):\n                raise ValueError(\"Region graph nodes must be either region or partition nodes\")\n", expect={}),
+    dict(id="q-integrate-split-guard", quiet=True, file=FUN, old="""    if not sc.is_smooth or not sc.is_decomposable:
+        raise StructuralPropertyError(
+            "Only smooth and decomposable circuits can be efficiently integrated."
+        )
+""", new="""    if not sc.is_smooth:
+        raise StructuralPropertyError("Only smooth circuits can be efficiently integrated.")
+    if not sc.is_decomposable:
+        raise StructuralPropertyError("Only decomposable circuits can be efficiently integrated.")
+""", expect={}),
+    dict(id="q-differentiate-demorgan-guard", quiet=True, file=FUN, old="""    if not sc.is_smooth or not sc.is_decomposable:
+        raise StructuralPropertyError(
+            "Only smooth and decomposable circuits can be efficiently differentiated."
+        )
+    if order <= 0:
+""", new="""    if order <= 0:
+        raise ValueError("The order of differentiation must be positive.")
+    if not (sc.is_smooth and sc.is_decomposable):
+        raise StructuralPropertyError(
+            "Only smooth and decomposable circuits can be efficiently differentiated."
+        )
+    if order < 1:
+""", expect={}),
+    dict(id="q-exit-reset-first", quiet=True, file=PIPE, old="""        self._op_registry.__exit__(__exc_type, __exc_value, __traceback)
+        assert self._token is not None
+        _PIPELINE_CONTEXT.reset(self._token)
+        self._token = None
+""", new="""        assert self._token is not None
+        _PIPELINE_CONTEXT.reset(self._token)
+        self._token = None
+        self._op_registry.__exit__(__exc_type, __exc_value, __traceback)
+""", expect={}),
+    dict(id="q-exit-try-finally", quiet=True, file=PIPE, old="""        self._op_registry.__exit__(__exc_type, __exc_value, __traceback)
+        assert self._token is not None
+        _PIPELINE_CONTEXT.reset(self._token)
+        self._token = None
+""", new="""        try:
+            self._op_registry.__exit__(__exc_type, __exc_value, __traceback)
+        finally:
+            assert self._token is not None
+            _PIPELINE_CONTEXT.reset(self._token)
+            self._token = None
+""", expect={}),
+    dict(id="q-compile-memo-else", quiet=True, file=ACOMP, old="        if self.is_compiled(sc):\n            return self.get_compiled_circuit(sc)\n        return self.compile_pipeline(sc)", new="        if not self.is_compiled(sc):\n            return self.compile_pipeline(sc)\n        return self.get_compiled_circuit(sc)", expect={}),
+    dict(id="q-softmax-rule-local", quiet=True, file=RPAR, old="    return TorchSoftmaxParameter(in_shape, dim=p.axis)\n", new="    axis = p.axis\n    return TorchSoftmaxParameter(in_shape, dim=axis)\n", expect={}),
+    dict(id="q-conj-sum-local", quiet=True, file=OPS, old="    weight = Parameter.from_unary(ConjugateParameter(sl.weight.shape), sl.weight.ref())\n    sl = SumLayer(", new="    w = sl.weight.ref()\n    weight = Parameter.from_unary(ConjugateParameter(sl.weight.shape), w)\n    sl = SumLayer(", expect={}),
+    dict(id="q-concatenate-enumerate", quiet=True, file=FUN, old="    for sc in scs:\n", new="    for _, sc in enumerate(scs):\n", expect={}),
+    dict(id="q-reduce-sum-dim-local", quiet=True, file=TNODES, old="        return torch.sum(x, dim=self.dim + 1)\n", new="        d = self.dim + 1\n        return torch.sum(x, dim=d)\n", expect={}),
+    dict(id="q-inner-fold-settings-tuple", quiet=True, file="cirkit/backend/torch/layers/inner.py", old="        pshapes = [(n, p.shape) for n, p in self.params.items()]\n        return *self.config.items(), *pshapes\n", new="        pshapes = tuple((n, p.shape) for n, p in self.params.items())\n        return tuple(self.config.items()) + pshapes\n", expect={}),
+    dict(id="q-categorical-rule-kwargs-dict", quiet=True, file=RLAY, old="""    return TorchCategoricalLayer(
+        torch.tensor(tuple(sl.scope)),
+        sl.num_output_units,
+        num_categories=sl.num_categories,
+""", new="""    scope_idx = torch.tensor(tuple(sl.scope))
+    num_categories = sl.num_categories
+    return TorchCategoricalLayer(
+        scope_idx,
+        sl.num_output_units,
+        num_categories=num_categories,
+""", expect={}),
+    dict(id="q-integrate-categorical-negative-axis", quiet=True, file=OPS, old="reduce_lse = ReduceLSEParameter(sl.logits.shape, axis=1)", new="reduce_lse = ReduceLSEParameter(sl.logits.shape, axis=-1)", expect={}),
+    dict(id="q-multiply-sum-locals", quiet=True, file=OPS, old="""    weight = Parameter.from_binary(
+        KroneckerParameter(sl1.weight.shape, sl2.weight.shape), sl1.weight.ref(), sl2.weight.ref()
+    )
+""", new="""    w1, w2 = sl1.weight.ref(), sl2.weight.ref()
+    kron = KroneckerParameter(sl1.weight.shape, sl2.weight.shape)
+    weight = Parameter.from_binary(kron, w1, w2)
+""", expect={}),
+    dict(id="q-evidence-guard-merged", quiet=True, file=FUN, old="""    if not scope:
+        raise ValueError("There are no variables to observe")
+    if not scope <= sc.scope:
+        raise ValueError("The variables to observe must be a subset of the scope of the circuit")
+""", new="""    if not scope or not scope <= sc.scope:
+        raise ValueError("The variables to observe must be a non-empty subset of the scope")
+""", expect={}),
+    dict(id="q-bimap-add-order", quiet=True, file=ALGO, old="        self._lhs_map[lhs] = rhs\n        self._rhs_map[rhs] = lhs\n", new="        self._rhs_map[rhs] = lhs\n        self._lhs_map[lhs] = rhs\n", expect={}),
 ]
